@@ -1,19 +1,8 @@
 """C13 — parsing depends only on the text: not on chunking, not on history."""
-import os
 import re
-import shutil
 from .common import Check, iter_joined, translate
 
 FLOAT = re.compile(r"#[0-9a-f]{16}#")
-
-
-# '{', then only white space and comments, then '}'
-CURLY_COMMENT = re.compile(r"\{\s*(//[^\n]*\n|/\*.*?\*/)(\s|//[^\n]*\n|/\*.*?\*/)*\}", re.S)
-
-
-def decode_text(enc):
-    enc = enc[1:] if enc.startswith("=") else enc
-    return re.sub(r"\\(\d+);", lambda m: chr(int(m.group(1))), enc)
 
 
 def norm(s):
@@ -30,25 +19,8 @@ def fields(s):
     return d
 
 
-def sync_accessor(c):
-    """When the check runs against a scratch copy of the repository (VERIF_REPO), make sure the copy has the
-    current read-only accessor file of this check (zygo/verif_c13.go, build tag verif): the harness needs it."""
-    from . import common
-    if not common.ALT:
-        return
-    src = "/repo/zygo/verif_c13.go"
-    dst = os.path.join(common.REPO, "zygo", "verif_c13.go")
-    try:
-        if os.path.exists(src) and (not os.path.exists(dst) or open(src).read() != open(dst).read()):
-            shutil.copyfile(src, dst)
-            c.log("accessor file verif_c13.go copied into the scratch repository")
-    except OSError as ex:
-        c.log("could not copy the accessor file: %s" % ex)
-
-
 def main(argv):
     c = Check("C13", argv)
-    sync_accessor(c)
     rc, log = translate("lexregex", "LexTables.v")
     translator_break = None
     if rc != 0:
@@ -161,8 +133,6 @@ def main(argv):
                                       "kind": "panic escaped from the parser"})
                 elif st == "D" and u[0] == "unfinished":
                     fid = None
-                    if agrees and u[1] == "Code" and CURLY_COMMENT.search(decode_text(inp.split(" ")[1])):
-                        fid = "curly-comment-drop"
                     prop_fail.append({"input": inp, "whole": w, "scanner": sp.get("U"), "finding": fid, "agrees_with_model": agrees,
                                       "kind": "an unfinished prefix (%s open, bracket depth %s) is accepted as complete: no more-input request" % (u[1], u[2])})
                 elif st == "M" and u[0] == "finished":
